@@ -47,6 +47,8 @@ type c14Params struct {
 	noInject    bool
 	flood       int  // that many routing indications arrive before the history begins (parked when nobody reads)
 	resendFails bool // a socket write may fail while a lost batch is being repeated
+	pre         int  // that many successful sends before the history begins
+	onlyLost    bool // the history consists of lost indications only (counts from losts)
 }
 
 var errInjected = errors.New("injected send failure")
@@ -137,6 +139,9 @@ func c14Run(p c14Params) func() {
 			mc.Sleep(1 * ms)
 			mc.SetQuiet(false)
 		}
+		for i := 0; i < p.pre; i++ {
+			send(false)
+		}
 		nsym := 4 + len(p.losts)
 		if !p.noInject {
 			nsym += 2
@@ -145,6 +150,10 @@ func c14Run(p c14Params) func() {
 			nsym++
 		}
 		for i := 0; i < p.L; i++ {
+			if p.onlyLost {
+				lost(p.losts[mc.Choose(len(p.losts), mc.Free)])
+				continue
+			}
 			c := mc.Choose(nsym, mc.Free)
 			switch {
 			case c == 0:
@@ -425,6 +434,19 @@ func init() {
 	register("both", &h.Scenario{Name: "C14-flat300-default-retain", Prop: "C14", P: 0, F: 0, D: -1, Run: c14Run(f1), Check: c14Oracle(f1)})
 	f2 := c14Params{L: 0, retain: 64, pause: 1, flat: 300}
 	register("both", &h.Scenario{Name: "C14-flat300-retain64", Prop: "C14", P: 0, F: 0, D: -1, Run: c14Run(f2), Check: c14Oracle(f2)})
+	// "counts 0..65535": every count (thorough), the counts around every octet / sign boundary (quick),
+	// after five sends with a history of three
+	var allCounts, edgeCounts []int
+	for k := 0; k <= 65535; k++ {
+		allCounts = append(allCounts, k)
+		if k <= 40 || (k&0xFF) <= 1 && k < 0x800 || (k&0xFF) == 0xFF && k < 0x800 || k >= 32764 && k <= 32772 || k >= 65528 {
+			edgeCounts = append(edgeCounts, k)
+		}
+	}
+	ec := c14Params{L: 1, pre: 5, retain: 3, pause: 1, losts: edgeCounts, onlyLost: true, noClose: true, noInject: true}
+	register("quick", &h.Scenario{Name: "C14-lost-counts-at-every-boundary", Prop: "C14", P: 0, F: 0, D: -1, Run: c14Run(ec), Check: c14Oracle(ec)})
+	ac := c14Params{L: 1, pre: 5, retain: 3, pause: 1, losts: allCounts, onlyLost: true, noClose: true, noInject: true}
+	register("thorough", &h.Scenario{Name: "C14-every-lost-count-0..65535", Prop: "C14", P: 0, F: 0, D: -1, Run: c14Run(ac), Check: c14Oracle(ac)})
 	t1 := c14Params{L: 5, retain: 2, pause: 5, losts: []int{0, 1, 2, 3, 65535}}
 	register("thorough", &h.Scenario{Name: "C14-L5-retain2-all", Prop: "C14", P: 1, F: 0, D: 1, Run: c14Run(t1), Check: c14Oracle(t1)})
 	t2 := c14Params{L: 6, retain: 3, pause: 5, losts: []int{1, 2, 3, 65535}, noInject: true}
